@@ -1,4 +1,4 @@
-import GixModel.Lemmas.C43
+import GixModel.Lemmas.C43Ident
 /-
 C43 — Content filters agree with git.  PROPERTY THEOREMS ONLY.
 
@@ -68,13 +68,14 @@ theorem pipeline_order_to_worktree (hash : Bytes → Bytes) (src : Bytes) (a : A
        (eolToWorktree s1 (atPath a c).1 c).getD s1) :=
   pipelineToWorktree_decompose extractedTable hash src a c
 
-/-- What remains to be shown about `ident::undo` for the ident attribute: it collapses like git's
-`ident_to_git`. (Stated as a predicate so that `to_git_eq_given_ident` is explicit about it.) -/
+/-- `ident::undo` collapses like git's `ident_to_git` — on every byte string. -/
 def IdentUndoAgrees : Prop := ∀ x : Bytes, (identUndo x).getD x = identToGit x true
 
-/-- `to_git_eq`: for every content, every attribute state, every configuration, every index blob
-and every `core.safecrlf` mode, `Pipeline::convert_to_git` yields what git's `convert_to_git`
-stores (bytes, warning, error) — given that `ident::undo` agrees with `ident_to_git`. -/
+/-- `ident_undo_eq_git`: `ident::undo` (find `$Id:`, next `$` or line break, repeat) and git's
+`count_ident` + `ident_to_git` loop compute the same function on ALL byte strings (both equal the
+reference `collapseAll`, Lemmas/C43Ident). -/
+theorem ident_undo_eq_git : IdentUndoAgrees := identUndo_eq_identToGit
+
 theorem to_git_eq_given_ident (hid : IdentUndoAgrees) (src : Bytes) (a : Attrs) (index : Option Bytes)
     (k : CrlfRoundTripCheck) (c : Config) :
     toGitResult src (pipelineToGit src a index k c) = convertToGit c.toGit a.toGit index k.toGit src := by
@@ -89,6 +90,14 @@ theorem to_git_eq_given_ident (hid : IdentUndoAgrees) (src : Bytes) (a : Attrs) 
     cases hi : (atPath a c).2
     · simp [identToGit]
     · simp only [if_true]; rw [hid r.out]
+
+/-- `to_git_eq`: for EVERY content, EVERY state of the text / crlf / eol / ident attributes, EVERY
+core.autocrlf × core.eol × native eol, EVERY index blob and EVERY core.safecrlf mode,
+`Pipeline::convert_to_git` yields what git's `convert_to_git` stores: the same bytes, the same
+warning, the same error. -/
+theorem to_git_eq (src : Bytes) (a : Attrs) (index : Option Bytes) (k : CrlfRoundTripCheck) (c : Config) :
+    toGitResult src (pipelineToGit src a index k c) = convertToGit c.toGit a.toGit index k.toGit src :=
+  to_git_eq_given_ident ident_undo_eq_git src a index k c
 
 /-- `to_git_eq` without the ident filter (attribute `ident` not set): unconditional, for all
 contents × attributes × configurations × index blobs × safecrlf modes. -/
@@ -177,8 +186,8 @@ def C43_to_git_full : Prop :=
   ∀ (src : Bytes) (a : Attrs) (index : Option Bytes) (k : CrlfRoundTripCheck) (c : Config),
     toGitResult src (pipelineToGit src a index k c) = convertToGit c.toGit a.toGit index k.toGit src
 
-theorem to_git_full_given_ident (hid : IdentUndoAgrees) : C43_to_git_full :=
-  fun src a index k c => to_git_eq_given_ident hid src a index k c
+/-- The full to-git statement holds. -/
+theorem to_git_full : C43_to_git_full := to_git_eq
 
 /-- Known finding 1: `ident::apply` writes `$Id: <hex>$`, git `$Id: <hex> $`
 (stored `$Id$`, attribute `ident`). -/
